@@ -27,7 +27,7 @@ type c14Case struct {
 func init() {
 	engine.Register(&engine.Check{
 		ID: "C14", Level: "exploration",
-		Rule:        "point sets of 1..4 (quick 3) points on the 4x4 grid; polylines of 2..4 vertices (repeated points allowed) and pairs of them; every SIMPLE ring (simplicity decided exactly) of 3..4 (thorough 5) vertices on the 4x4 grid in both directions and from every start vertex; polygons = every axis-parallel rectangle and lattice triangle on the 7x7 grid (quick 5x5) as shell x lattice triangles / unit squares strictly inside as holes (<=1 quick, <=2 thorough), rings in every direction combination; multipolygons = pairs of disjoint polygons; zero-area polygons for the length-weighted fallback; offsets {0,1e5,2^30}; layouts with extra ordinates. Oracle: rational mean / length-weighted (256-bit sqrt) / area-weighted centroid within a forward error bound; IsRingCounterClockwise <=> exact signed area > 0; SignedArea = -(exact ccw area). distinct_nontrivial = distinct inputs with non-zero length or area Also: point sets and polylines with every count 1..70 and counts around powers of two, 4096/3 and 8192/3 up to 8193 (thorough 65537) in all four layouts.",
+		Rule:        "point sets of 1..4 points on the 4x4 grid; polylines of 2..4 vertices (repeated points allowed) and pairs of them; every SIMPLE ring (simplicity decided exactly) of 3..5 (thorough 6) vertices on the 4x4 grid in both directions and from every start vertex; polygons = every axis-parallel rectangle and lattice triangle on the 6x6 grid (thorough 8x8) as shell x lattice triangles / unit squares strictly inside as holes (<=1 quick, <=2 thorough), rings in every direction combination; multipolygons = pairs of disjoint polygons; zero-area polygons for the length-weighted fallback; offsets {0,1e5,2^30}; layouts with extra ordinates. Oracle: rational mean / length-weighted (256-bit sqrt) / area-weighted centroid within a forward error bound; IsRingCounterClockwise <=> exact signed area > 0; SignedArea = -(exact ccw area). distinct_nontrivial = distinct inputs with non-zero length or area Also: point sets and polylines with every count 1..70 and counts around powers of two, 4096/3 and 8192/3 up to 8193 (thorough 65537) in all four layouts.",
 		Run:         c14Run,
 		Replay:      func(c *engine.Ctx, kind string, raw json.RawMessage) { c14Exec(c, decodeCase[c14Case](raw)) },
 		Assumptions: []string{"valid polygons only (simple rings, holes strictly inside, disjoint members); polylines of non-zero total length"},
@@ -315,10 +315,10 @@ func c14Run(c *engine.Ctx) {
 	for i := range idx {
 		idx[i] = i
 	}
-	maxPts := 3
-	maxRing := 4
+	maxPts := 4
+	maxRing := 5
 	if c.Thorough() {
-		maxPts, maxRing = 4, 5
+		maxPts, maxRing = 4, 6
 	}
 	seqs := ref.Seqs(idx, maxPts)[1:]
 	c.Parallel(len(seqs), func(i int) {
@@ -455,9 +455,9 @@ func c14Run(c *engine.Ctx) {
 		}
 	}
 	// polygons with holes on a larger grid
-	n := 5
+	n := 6
 	if c.Thorough() {
-		n = 7
+		n = 8
 	}
 	type shape struct{ pts []ref.P2 }
 	var shells []shape
